@@ -53,12 +53,16 @@ class C16(Prop):
         rows6 = C.read_jsonl(p6)
         if rc != 0 or not rows6:
             raise RuntimeError("C16 abort-then-concurrent harness did not run: rc=%s\n%s" % (rc, out[-2000:]))
+        rc, out, p8, dt = C.go_test_overlay(ctx.work, "./utils/tcpbridge/connection/", "TestVerifC16StalledNeighbours$", OVERLAY, "C16Neigh.jsonl", ctx.seed, ctx.tier, timeout=900, extra_env=env)
+        rows8 = C.read_jsonl(p8)
+        if rc != 0 or not rows8:
+            raise RuntimeError("C16 stalled-neighbours harness did not run: rc=%s\n%s" % (rc, out[-2000:]))
         th.join()
         rc, out, p7, dt = stall["r"]
         rows7 = C.read_jsonl(p7)
         if rc != 0 or not rows7:
             raise RuntimeError("C16 stalled-set-up harness did not run: rc=%s\n%s" % (rc, out[-2000:]))
-        return {"rows": rows + rows2 + rows3 + rows4 + rows5 + rows6 + rows7}
+        return {"rows": rows + rows2 + rows3 + rows4 + rows5 + rows6 + rows7 + rows8}
 
     def oracle(self, ctx, obs):
         res = []
@@ -66,6 +70,21 @@ class C16(Prop):
             if r["kind"] == "open-count":
                 if r["open"] != 0:
                     res.append(("connections-leaked", "%d of %d bridged connections are still open on the TCP server after both ends are gone" % (r["open"], r["scenarios"]), r))
+                continue
+            if r["kind"] == "stalled-neighbours":
+                rp = {"driver": "TestVerifC16StalledNeighbours: a download whose client stops reading and an upload whose server does not read (both stalled by back-pressure, all four endpoints alive), then four short connections through the same two bridge processes", "observed": r}
+                if r.get("err"):
+                    res.append(("bridge-connect-error", r["err"], rp))
+                    continue
+                bad = []
+                for c in r.get("neighbour_clients") or []:
+                    sv = (r.get("neighbour_servers") or {}).get(c["name"])
+                    if c.get("err") or c.get("client_received") != "greeting from the server\n":
+                        bad.append("%s: the client did not receive the server's greeting (%s)" % (c["name"], c.get("err") or repr(c.get("client_received"))))
+                    elif not sv or sv.get("server_received") != "reply " + c["name"] or sv.get("server_eof_after_ms", -1) < 0:
+                        bad.append("%s: the server did not receive the client's reply and end of stream within the bound (%s)" % (c["name"], sv))
+                if bad:
+                    res.append(("neighbour-of-stalled-connection-blocked", "connections sharing the bridge with two stalled ones: " + "; ".join(bad)[:600], rp))
                 continue
             if r["kind"] == "stall":
                 rp = {"driver": "TestVerifC16Stall: two TCP clients -> tcp-bridge-frontend -> a websocket peer that accepts the connection and never answers the upgrade request; client A hangs up after 1 s, client B waits", "observed": r}
